@@ -273,4 +273,13 @@ def dataframeRows (df : DataFrame V) : List ((SrcId × Nat × Nat × Nat) × V) 
   df.index.zip df.values
 
 end
+/-- local-frame field function of a homogeneous magnet for the fields J and M: the vector `pol` (polarization, resp.
+magnetization) on the body, zero outside -/
+def indicatorField {V : Type} [Zero V] (body : V → Bool) (pol : V) : V → V := fun x => if body x then pol else 0
+
+/-- the closed axis-aligned box with edge lengths `dim` on integer points (`BHJM_magnet_cuboid`'s inside mask
+`|x| - dim/2 < 1e-15·dim/2` at integer observers and integer dimensions: `2|x_i| ≤ dim_i`) -/
+def boxBody (dim : V3 Int) (x : V3 Int) : Bool :=
+  decide (-dim.x ≤ 2 * x.x ∧ 2 * x.x ≤ dim.x ∧ -dim.y ≤ 2 * x.y ∧ 2 * x.y ≤ dim.y ∧ -dim.z ≤ 2 * x.z ∧ 2 * x.z ≤ dim.z)
+
 end MagpyVerif.Level2
